@@ -263,8 +263,10 @@ def main(argv=None):
         "seed": seed,
         "level": spec.get("level", "proof"),
         "coverage": {
-            "obligations": total,
+            # obligations that express a LISTED known finding are reported separately (they fail by definition of the finding)
+            "obligations": total - n_known_obl,
             "discharged": discharged,
+            "obligations_generated_total": total,
             "failed": len(failed),
             "unknown": len(unknown),
             "failing_obligations_matching_known_findings": n_known_obl,
